@@ -258,7 +258,11 @@ class ATT_PDU:
             instance = ATT_PDU()
             instance.op_code = op_code
             instance.payload = pdu[1:]
-            instance.name = Opcode(op_code).name
+            try:
+                instance.name = Opcode(op_code).name
+            except ValueError:
+                # Not an opcode that we know about
+                instance.name = f'ATT_OPCODE_{op_code:02X}'
             return instance
         instance = subclass(**HCI_Object.dict_from_bytes(pdu, 1, subclass.fields))
         instance.payload = pdu[1:]
